@@ -33,7 +33,7 @@ template <class Functor> inline bool IndividualFields(util::StringPiece str, con
   for (const FieldRange f : indices) {
     for (; index < f.begin; ++index) {
       begin = std::find(begin, end, delim) + 1;
-      if (begin >= end) return true;
+      if (begin > end) return true;
     }
     for (; index < f.end; ++index) {
       const char *found = std::find(begin, end, delim);
@@ -41,7 +41,7 @@ template <class Functor> inline bool IndividualFields(util::StringPiece str, con
         return false;
       }
       begin = found + 1;
-      if (begin >= end) return true;
+      if (begin > end) return true;
     }
   }
   return true;
@@ -55,7 +55,7 @@ template <class Functor> inline void RangeFields(util::StringPiece str, const st
   for (const FieldRange f : indices) {
     for (; index < f.begin; ++index) {
       begin = std::find(begin, end, delim) + 1;
-      if (begin >= end) return;
+      if (begin > end) return;
     }
     if (f.end == FieldRange::kInfiniteEnd) {
       callback(util::StringPiece(begin, end - begin));
@@ -65,7 +65,7 @@ template <class Functor> inline void RangeFields(util::StringPiece str, const st
     for (; index < f.end; ++index) {
       const char *found = std::find(begin, end, delim);
       begin = found + 1;
-      if (begin >= end) {
+      if (begin > end) {
         callback(util::StringPiece(old_begin, end - old_begin));
         return;
       }
